@@ -18,7 +18,10 @@ HEADER_FIELD = {"Files": "files", "Functions": "functions", "Lines of Code": "lo
 CUR = {"Alpha": dict(files=9, functions=40, loc=400, hard_to_maintain=9, unmaintainable=7),
        "Beta": dict(files=7, functions=31, loc=900, hard_to_maintain=8, unmaintainable=6),
        "Delta": dict(files=2, functions=6, loc=100, hard_to_maintain=4, unmaintainable=0)}
+CUR["Eps"] = dict(files=3, functions=2, loc=50, hard_to_maintain=1, unmaintainable=0)
 PREV = {"Alpha": dict(files=9, functions=38, loc=450, hard_to_maintain=0, unmaintainable=0),
+        # present in both reports; in the previous one its files hold no function at all (headers, declarations): every figure but files is 0
+        "Eps": dict(files=2, functions=0, loc=0, hard_to_maintain=0, unmaintainable=0),
         "Delta": dict(files=1, functions=6, loc=100, hard_to_maintain=4, unmaintainable=3),
         "Gamma": dict(files=100, functions=1000, loc=20000, hard_to_maintain=70, unmaintainable=90)}
 
@@ -61,14 +64,27 @@ class Lab:
     def scan_totals(self, it, table):
         return it.construct(self.ST, [self.totals(it, table)] if table is not None else [], {}, None, self.prj.func(self.LT.find_method("add").qual))
 
+    def warm_up(self, it):
+        """what an earlier scan in the same process does: a ScanTotals of its own, filled through add() with a file of a language
+        that occurs in no report rendered afterwards"""
+        from .evalsite import measurement
+        anchor = self.prj.func(self.LT.find_method("add").qual)
+        ec = self.prj.cls("codelimit.common.SourceFileEntry:SourceFileEntry")
+        st = it.construct(self.ST, [], {}, None, anchor)
+        e = it.construct(ec, ["earlier/z.zz", "sum0", "Zeta", 77, [measurement(77, "zfn", self.prj)]], {}, None, anchor)
+        it.call(self.prj.func(self.ST.find_method("add").qual), [e], {}, st)
+
     def report(self, it, table):
         cb = Sym("codebase", totals=self.totals(it, table))
         return Sym("report", _cls=self.Report, codebase=cb, repository=None)
 
 
-def text_table(lab: Lab, cur, prev):
+def text_table(lab: Lab, cur, prev, warm=False):
     """-> (headers, footers, rows) of ScanResultTable(cur, prev) from the recorded add_column / add_row calls"""
     it, run = lab.interp()
+    if warm:
+        lab.warm_up(it)
+        del run.effects[:]
     ci = lab.prj.cls("codelimit.common.ScanResultTable:ScanResultTable")
     anchor = lab.prj.func(ci.find_method("__init__").qual)
     st_c = lab.scan_totals(it, cur)
@@ -84,8 +100,11 @@ def text_table(lab: Lab, cur, prev):
     return headers, footers, rows
 
 
-def markdown_table(lab: Lab, cur, prev):
+def markdown_table(lab: Lab, cur, prev, warm=False):
     it, run = lab.interp()
+    if warm:
+        lab.warm_up(it)
+        del run.effects[:]
     fn = lab.prj.func("codelimit.common.report.format_markdown:print_totals")
     rep_c = lab.report(it, cur)
     kwargs = {}
